@@ -40,9 +40,10 @@ fn payload_bytes(len: usize) -> Vec<u8> {
 }
 
 /// Build a region whose bytes are `payload`, located at a non-zero offset of a source of `kind`.
-fn make_region(kind: SourceKind, payload: &[u8], dir: &std::path::Path) -> Result<ByteRegion, String> {
+fn make_region(kind: SourceKind, payload: &[u8], dir: &std::path::Path, at_end: bool) -> Result<ByteRegion, String> {
     let lead = jbkmc::gen::payload(11, Entropy::High, 1);
-    let trail = jbkmc::gen::payload(9, Entropy::High, 2);
+    // `at_end`: the payload is the last thing in its source (nothing follows it)
+    let trail = if at_end { vec![] } else { jbkmc::gen::payload(9, Entropy::High, 2) };
     let mut all = lead.clone();
     all.extend_from_slice(payload);
     all.extend_from_slice(&trail);
@@ -59,7 +60,9 @@ fn make_region(kind: SourceKind, payload: &[u8], dir: &std::path::Path) -> Resul
             let p = dir.join("small.bin");
             let mut f = vec![0xEEu8; 100];
             f.extend_from_slice(&all);
-            f.extend_from_slice(&[0xDD; 50]);
+            if !at_end {
+                f.extend_from_slice(&[0xDD; 50]);
+            }
             std::fs::write(&p, &f).map_err(|e| e.to_string())?;
             jbk::verif::region_in_file_cut(&p, 100, all.len() as u64, k, l).map_err(|e| e.to_string())
         }
@@ -68,9 +71,13 @@ fn make_region(kind: SourceKind, payload: &[u8], dir: &std::path::Path) -> Resul
             let mut f = vec![0xEEu8; 100];
             let mut cut = vec![0xCCu8; 4500];
             cut.extend_from_slice(&all);
-            cut.extend_from_slice(&[0xBB; 700]);
+            if !at_end {
+                cut.extend_from_slice(&[0xBB; 700]);
+            }
             f.extend_from_slice(&cut);
-            f.extend_from_slice(&[0xDD; 50]);
+            if !at_end {
+                f.extend_from_slice(&[0xDD; 50]);
+            }
             std::fs::write(&p, &f).map_err(|e| e.to_string())?;
             jbk::verif::region_in_file_cut(&p, 100, cut.len() as u64, 4500 + k, l).map_err(|e| e.to_string())
         }
@@ -91,7 +98,11 @@ fn make_region(kind: SourceKind, payload: &[u8], dir: &std::path::Path) -> Resul
             let up = camino::Utf8PathBuf::from_path_buf(p.clone()).unwrap();
             let mut c = jbk::creator::ContentPackCreator::new(&up, jbk::PackId::from(1), jbk::VendorId::from(VENDOR), Default::default(), Comp::Zstd(3).to_jbk())
                 .map_err(|e| e.to_string())?;
-            for b in [lead.clone(), payload.to_vec(), trail.clone()] {
+            let mut blobs = vec![lead.clone(), payload.to_vec()];
+            if !at_end {
+                blobs.push(trail.clone());
+            }
+            for b in blobs {
                 c.add_content(Box::new(std::io::Cursor::new(b)), hint.to_jbk()).map_err(|e| e.to_string())?;
             }
             c.finalize().map_err(|e| e.to_string())?;
@@ -113,7 +124,23 @@ fn check_stream(mut s: jbk::reader::ByteStream, want: &[u8], parts: &[usize], la
         return Err(f("stream size()", format!("size() = {} for a view of {total} bytes", s.size())));
     }
     let mut consumed = 0usize;
+    // a read into an empty buffer returns 0 and moves nothing, wherever it is issued
+    let empty_read = |s: &mut jbk::reader::ByteStream, consumed: usize| -> Result<(), Fail> {
+        match s.read(&mut []) {
+            Ok(0) => {}
+            Ok(n) => return Err(f("zero-length read returns bytes", format!("{n} bytes into an empty buffer after {consumed} bytes"))),
+            Err(e) => return Err(f("zero-length read fails", format!("{e} after {consumed} bytes"))),
+        }
+        if s.offset() != consumed as u64 || s.size_left() != total - consumed as u64 || s.size() != total {
+            return Err(f(
+                "zero-length read moves the stream",
+                format!("after {consumed} bytes and an empty read: offset()={} size_left()={} size()={} (view of {total})", s.offset(), s.size_left(), s.size()),
+            ));
+        }
+        Ok(())
+    };
     for &p in parts {
+        empty_read(&mut s, consumed)?;
         // ask for p bytes; a read may return less, continue until p bytes arrived
         let mut got = 0;
         let mut buf = vec![0u8; p];
@@ -135,6 +162,7 @@ fn check_stream(mut s: jbk::reader::ByteStream, want: &[u8], parts: &[usize], la
         }
         consumed += p;
     }
+    empty_read(&mut s, consumed)?;
     // over-long read at the end
     let mut extra = [0u8; 5];
     match s.read(&mut extra) {
@@ -308,7 +336,7 @@ fn interleave_tier(rep: &mut Report, dir: &std::path::Path, profile: &str, thoro
     let l = 9000;
     let payload = payload_bytes(l);
     for kind in [SourceKind::FileUncut, SourceKind::ContainerRaw, SourceKind::ContainerComp, SourceKind::FileCutMmap, SourceKind::Vec] {
-        let region = match jbkmc::catch(|| make_region(kind, &payload, dir)) {
+        let region = match jbkmc::catch(|| make_region(kind, &payload, dir, false)) {
             Ok(Ok(r)) => r,
             other => {
                 rep.machinery_errors.push(format!("cannot build source {kind:?}: {:?}", other.map(|x| x.map(|_| ()))));
@@ -395,7 +423,7 @@ fn main() {
     let mut rep = Report::new(
         "viewmc",
         "C13",
-        "payloads of length L in 0..5 (quick) / 0..7 (thorough), never at offset 0 of their source, on 8 source kinds (Vec, file uncut, file cut <4 KiB, file cut >=4 KiB mmap, background decoder identity and zstd, content #2 of a raw and of a compressed cluster through the container API); every chain of nested cuts (o1,s1) >= (o2,s2) >= (o3,s3) up to depth 3; on every view: size(), get_slice of every sub-range on the slice and on the converted region, and 4 stream conversion paths x every composition of the length into read sizes with size()/offset()/size_left() after every read and an over-long read at the end; plus one 5000-byte payload per source with a reduced cut set; a decoder scripted to stall after its first 4096 bytes with the first access deep in the data; two views of one source read alternately (all 6 interleavings of 2+2 reads) at distances {0,10,1023,1024,1025,2048,4096} x read sizes {1,10,1023,1024}; non-trivial = view of at least one byte; distinct by (source, L, chain)",
+        "payloads of length L in 0..5 (quick) / 0..7 (thorough), never at offset 0 of their source, followed by other bytes or ending exactly at the end of the source, on 8 source kinds (Vec, file uncut, file cut <4 KiB, file cut >=4 KiB mmap, background decoder identity and zstd, content #2 of a raw and of a compressed cluster through the container API); every chain of nested cuts (o1,s1) >= (o2,s2) >= (o3,s3) up to depth 3; on every view: size(), get_slice of every sub-range on the slice and on the converted region, and 4 stream conversion paths x every composition of the length into read sizes with size()/offset()/size_left() after every read, a zero-length read before every read and at the end (returns 0, moves nothing) and an over-long read at the end; plus one 5000-byte payload per source with a reduced cut set; a decoder scripted to stall after its first 4096 bytes with the first access deep in the data; two views of one source read alternately (all 6 interleavings of 2+2 reads) at distances {0,10,1023,1024,1025,2048,4096} x read sizes {1,10,1023,1024}; non-trivial = view of at least one byte; distinct by (source, L, chain)",
     );
     rep.extra.insert("profile".into(), json!(profile));
     let dir = jbkmc::scratch_dir("view");
@@ -407,15 +435,15 @@ fn main() {
     });
     let _wd_out = args.out.clone();
     jbkmc::watchdog::start("viewmc", "C13", "C13 a view does not terminate", std::time::Duration::from_secs(60), args.out.clone(), |c| json!({"engine":"viewmc","case":c}));
-    for kind in KINDS {
+    for (kind, at_end) in KINDS.iter().flat_map(|k| [(*k, false), (*k, true)]) {
         for l in 0..=maxl {
             if let Some(r) = &replay {
-                if r["source"] != json!(format!("{kind:?}")) || r["L"] != json!(l) {
+                if r["source"] != json!(format!("{kind:?}")) || r["L"] != json!(l) || r["at_end"].as_bool().unwrap_or(false) != at_end {
                     continue;
                 }
             }
             let payload = payload_bytes(l);
-            let region = match jbkmc::catch(|| make_region(kind, &payload, dir.path())) {
+            let region = match jbkmc::catch(|| make_region(kind, &payload, dir.path(), at_end)) {
                 Ok(Ok(r)) => r,
                 Ok(Err(e)) => {
                     rep.machinery_errors.push(format!("cannot build source {kind:?}: {e}"));
@@ -427,11 +455,11 @@ fn main() {
                 }
             };
             for chain in chains(l, 3) {
-                let case = json!({"engine": "viewmc", "source": format!("{kind:?}"), "L": l, "chain": chain, "profile": profile});
+                let case = json!({"engine": "viewmc", "source": format!("{kind:?}"), "at_end": at_end, "L": l, "chain": chain, "profile": profile});
                 let _g = jbkmc::watchdog::guard(|| case.to_string());
                 let last_len = chain.last().map(|c| c.1).unwrap_or(l);
                 let r = jbkmc::catch(|| check_view(&region, &chain, &payload, usize::MAX));
-                let id = format!("{kind:?}:{l}:{chain:?}");
+                let id = format!("{kind:?}:{at_end}:{l}:{chain:?}");
                 match r {
                     Ok(Ok(n)) => {
                         rep.case(if last_len > 0 { Some(&id) } else { None }, "agree");
@@ -455,7 +483,7 @@ fn main() {
         if replay.is_none() {
             let l = 5000;
             let payload = payload_bytes(l);
-            if let Ok(Ok(region)) = jbkmc::catch(|| make_region(kind, &payload, dir.path())) {
+            if let Ok(Ok(region)) = jbkmc::catch(|| make_region(kind, &payload, dir.path(), at_end)) {
                 let cuts: Vec<Vec<(usize, usize)>> = vec![
                     vec![(0, 17)],
                     vec![(4090, 12)],
@@ -466,9 +494,9 @@ fn main() {
                     vec![(5000, 0)],
                 ];
                 for chain in cuts {
-                    let case = json!({"engine": "viewmc", "source": format!("{kind:?}"), "L": l, "chain": chain, "profile": profile});
+                    let case = json!({"engine": "viewmc", "source": format!("{kind:?}"), "at_end": at_end, "L": l, "chain": chain, "profile": profile});
                     let _g = jbkmc::watchdog::guard(|| case.to_string());
-                    let id = format!("{kind:?}:{l}:{chain:?}");
+                    let id = format!("{kind:?}:{at_end}:{l}:{chain:?}");
                     match jbkmc::catch(|| check_view(&region, &chain, &payload, 40)) {
                         Ok(Ok(_)) => rep.case(Some(&id), "agree(large)"),
                         Ok(Err(f)) => {
@@ -483,9 +511,9 @@ fn main() {
                 }
                 // whole 5000 bytes streamed with several read sizes
                 for parts in [vec![5000], vec![1; 50].into_iter().chain([4950]).collect::<Vec<_>>(), vec![4095, 1, 1, 903], vec![700; 7].into_iter().chain([100]).collect()] {
-                    let case = json!({"engine": "viewmc", "source": format!("{kind:?}"), "L": l, "whole_stream_parts": parts.len(), "profile": profile});
+                    let case = json!({"engine": "viewmc", "source": format!("{kind:?}"), "at_end": at_end, "L": l, "whole_stream_parts": parts.len(), "profile": profile});
                     match jbkmc::catch(|| check_stream(region.stream(), &payload, &parts, "large whole stream")) {
-                        Ok(Ok(())) => rep.case(Some(&format!("{kind:?}:whole:{}", parts.len())), "agree(large)"),
+                        Ok(Ok(())) => rep.case(Some(&format!("{kind:?}:{at_end}:whole:{}", parts.len())), "agree(large)"),
                         Ok(Err(f)) => rep.violation(&format!("C13 {} [{kind:?}]", f.key), &f.what, case),
                         Err(p) => rep.violation(&format!("C13 panic {} [{kind:?}]", jbkmc::panic_site(&p)), &p, case),
                     }
